@@ -164,9 +164,9 @@ CHECK_DEADLOCK FALSE
 
 
 def run_headrules(w, cfgc, tier, seed, dev=()):
-    decos = [[], list('-SBJ-1'), list('=2'), list("'")]
+    decos = [[], list('-SBJ-1'), list('=2'), list("'"), list('=2-1'), list("-SBJ=2-1'")]
     b = dict(MaxLen=3, Stride=3, Offset=seed % 3) if tier == 'quick' else dict(MaxLen=3, Stride=1, Offset=0)
-    defs = {'c_Rules': cfgc['rules'], 'c_Decos': set_of(decos if tier != 'quick' else decos[:2] + decos[3:]),
+    defs = {'c_Rules': cfgc['rules'], 'c_Decos': set_of(decos if tier != 'quick' else decos[:2] + decos[3:5]),
             'c_PUNCT': set(cfgc['PUNCT']), 'c_PAIRPUNCT': set(cfgc['PAIRPUNCT']), 'c_Dev': set(dev)}
     core.gen_module(w, 'MCHR', ['MC_HeadRules'], defs)
     return core.tlc(w, 'MCHR', CFG_HR % b, timeout=3000), b
